@@ -115,6 +115,11 @@ class Check:
     def opt_body(self, qual):
         return self.facts.body(qual)
 
+    def body_by_path(self, path):
+        """lookup by rustc's def_path_str (needed where two types share a short name)"""
+        l = [b for b in self.facts.bodies.values() if b.path == path]
+        return l[0] if len(l) == 1 else None
+
 
 def path_descr(body, blocks, limit=14):
     """human readable rendering of a block path: only blocks ending in calls/switches outside
